@@ -1,11 +1,14 @@
 package main
 
 import (
+	"bytes"
 	"fmt"
 	"go/ast"
 	"go/constant"
 	"go/parser"
+	"go/printer"
 	"go/token"
+	"go/types"
 	"os"
 	"path/filepath"
 	"regexp"
@@ -14,6 +17,7 @@ import (
 	"strconv"
 	"strings"
 
+	"golang.org/x/tools/go/ast/astutil"
 	"golang.org/x/tools/go/ssa"
 )
 
@@ -530,9 +534,25 @@ func c07R34(c *Ctx, r *Report) {
 		r.bad("C07.R3", "modules/l4tls.parseRawClientHello", "exists", "-", "parser (or the oracle's extension switch) not found")
 		return
 	}
-	repo := extractHelloParser(repoFn, func(e ast.Expr) (int64, bool) {
-		if tv, ok := pkg.TypesInfo.Types[e]; ok && tv.Value != nil {
-			return constant.Int64Val(constant.ToInt(tv.Value))
+	repoDecls := map[string]*ast.FuncDecl{}
+	for _, f := range pkg.Syntax {
+		for _, d := range f.Decls {
+			if fd, ok := d.(*ast.FuncDecl); ok && fd.Recv == nil {
+				repoDecls[fd.Name.Name] = fd
+			}
+		}
+	}
+	repoCopy := inlineGuardedHelpers(c.Fset, repoFn, repoDecls)
+	repo := extractHelloParser(repoCopy, func(e ast.Expr) (int64, bool) {
+		// by name: the parser is analysed on a copy with its guarded helpers inlined
+		if id, ok := e.(*ast.Ident); ok {
+			if cst, ok := pkg.Types.Scope().Lookup(id.Name).(*types.Const); ok && cst.Val().Kind() == constant.Int {
+				return constant.Int64Val(cst.Val())
+			}
+		}
+		if bl, ok := e.(*ast.BasicLit); ok && bl.Kind == token.INT {
+			v, err := strconv.ParseInt(bl.Value, 0, 64)
+			return v, err == nil
 		}
 		return 0, false
 	})
@@ -728,4 +748,146 @@ func c07R5(c *Ctx, r *Report, rule string) {
 		}
 	}
 	r.check(good, rule, fname(fn), "handshake matchers on parsed info", c.pos(fn.Pos()), "sub-matchers see the parsed hello", "configured handshake matchers (sni, alpn, ...) are not evaluated on the parsed ClientHelloInfo")
+}
+
+// inlineGuardedHelpers returns a copy of fn in which every statement of the form
+//
+//	if !helper(args...) { return ... }
+//
+// where helper is a function of the same package that reports success as a bool, is replaced by the helper's body
+// (its parameters replaced by the argument expressions, `return false` by the guard's return, the final `return true`
+// dropped). The agreement rules then see the parser as if the helper had not been extracted.
+func inlineGuardedHelpers(fset *token.FileSet, fn *ast.FuncDecl, decls map[string]*ast.FuncDecl) *ast.FuncDecl {
+	clone := func(fd *ast.FuncDecl) *ast.FuncDecl {
+		var buf bytes.Buffer
+		buf.WriteString("package p\n")
+		cp := *fd
+		cp.Doc = nil
+		if err := printer.Fprint(&buf, fset, &cp); err != nil {
+			return nil
+		}
+		f, err := parser.ParseFile(token.NewFileSet(), "copy.go", buf.Bytes(), 0)
+		if err != nil || len(f.Decls) == 0 {
+			return nil
+		}
+		out, _ := f.Decls[0].(*ast.FuncDecl)
+		return out
+	}
+	root := clone(fn)
+	if root == nil {
+		return fn
+	}
+	var rewrite func(list []ast.Stmt, depth int) []ast.Stmt
+	expand := func(ifs *ast.IfStmt, depth int) ([]ast.Stmt, bool) {
+		if ifs.Else != nil || ifs.Init != nil || len(ifs.Body.List) != 1 {
+			return nil, false
+		}
+		guardRet, ok := ifs.Body.List[0].(*ast.ReturnStmt)
+		if !ok {
+			return nil, false
+		}
+		not, ok := ifs.Cond.(*ast.UnaryExpr)
+		if !ok || not.Op != token.NOT {
+			return nil, false
+		}
+		call, ok := not.X.(*ast.CallExpr)
+		if !ok {
+			return nil, false
+		}
+		id, ok := call.Fun.(*ast.Ident)
+		if !ok || strings.HasPrefix(id.Name, "readUint") || decls[id.Name] == nil || depth > 1 {
+			return nil, false
+		}
+		h := clone(decls[id.Name])
+		if h == nil || h.Body == nil || h.Type.Results == nil || len(h.Type.Results.List) != 1 {
+			return nil, false
+		}
+		// parameter -> argument
+		env := map[string]ast.Expr{}
+		i := 0
+		for _, fl := range h.Type.Params.List {
+			for _, nm := range fl.Names {
+				if i < len(call.Args) {
+					env[nm.Name] = call.Args[i]
+				}
+				i++
+			}
+		}
+		body := astutil.Apply(h.Body, func(cur *astutil.Cursor) bool {
+			switch x := cur.Node().(type) {
+			case *ast.StarExpr:
+				if pid, ok := x.X.(*ast.Ident); ok {
+					if a, ok := env[pid.Name]; ok {
+						if u, ok := a.(*ast.UnaryExpr); ok && u.Op == token.AND {
+							cur.Replace(u.X)
+							return false
+						}
+					}
+				}
+			case *ast.Ident:
+				if a, ok := env[x.Name]; ok {
+					if _, isField := cur.Parent().(*ast.SelectorExpr); isField && cur.Name() == "Sel" {
+						return true
+					}
+					if u, ok := a.(*ast.UnaryExpr); ok && u.Op == token.AND {
+						cur.Replace(u.X)
+					} else {
+						cur.Replace(a)
+					}
+				}
+			case *ast.ReturnStmt:
+				if len(x.Results) == 1 {
+					if rid, ok := x.Results[0].(*ast.Ident); ok && rid.Name == "false" {
+						cur.Replace(&ast.ReturnStmt{Results: guardRet.Results})
+					}
+				}
+			}
+			return true
+		}, nil).(*ast.BlockStmt)
+		list := body.List
+		if n := len(list); n > 0 {
+			if rs, ok := list[n-1].(*ast.ReturnStmt); ok && len(rs.Results) == 1 {
+				if rid, ok := rs.Results[0].(*ast.Ident); ok && rid.Name == "true" {
+					list = list[:n-1]
+				}
+			}
+		}
+		return rewrite(list, depth+1), true
+	}
+	rewrite = func(list []ast.Stmt, depth int) []ast.Stmt {
+		var out []ast.Stmt
+		for _, st := range list {
+			switch x := st.(type) {
+			case *ast.IfStmt:
+				if repl, ok := expand(x, depth); ok {
+					out = append(out, repl...)
+					continue
+				}
+				x.Body.List = rewrite(x.Body.List, depth)
+				if eb, ok := x.Else.(*ast.BlockStmt); ok {
+					eb.List = rewrite(eb.List, depth)
+				}
+			case *ast.ForStmt:
+				x.Body.List = rewrite(x.Body.List, depth)
+			case *ast.RangeStmt:
+				x.Body.List = rewrite(x.Body.List, depth)
+			case *ast.BlockStmt:
+				x.List = rewrite(x.List, depth)
+			case *ast.SwitchStmt:
+				for _, cc := range x.Body.List {
+					if c2, ok := cc.(*ast.CaseClause); ok {
+						c2.Body = rewrite(c2.Body, depth)
+					}
+				}
+			}
+			out = append(out, st)
+		}
+		return out
+	}
+	root.Body.List = rewrite(root.Body.List, 0)
+	// positions must be consistent for the extractor (it orders by position): print and re-parse once more
+	if again := clone(root); again != nil {
+		return again
+	}
+	return root
 }
